@@ -315,6 +315,21 @@ def check_model(c, item):
         c.sample(dict(kind=kind, model=name, history=''.join(hist), observed_keys=sorted(ow.keys())))
 
 
+def drain_queue(q, nr, ncols):
+    """slot times and contents of a queue, read from a copy"""
+    if q is None:
+        return None
+    qq = q.py_copy()
+    out = []
+    for _ in range(ncols):
+        z = np.zeros(nr)
+        t = qq.py_get_next_queue_time()
+        qq.py_get_next_reactions(z)
+        out.append([float(t)] + z.tolist())
+        qq.py_advance_time()
+    return out
+
+
 def check_results(c, item):
     """simulation results, cell states and lineages survive pickling (and deep copy) with data and links intact"""
     from bioscrape.simulator import py_simulate_model, VolumeCellState, DelayVolumeCellState, ArrayDelayQueue
@@ -336,32 +351,41 @@ def check_results(c, item):
             r2 = cp(r)
             a = [arr(r.py_get_timepoints()), arr(r.py_get_result())] + ([arr(r.py_get_volume())] if what == 'VolumeSSAResult' else [])
             b = [arr(r2.py_get_timepoints()), arr(r2.py_get_result())] + ([arr(r2.py_get_volume())] if what == 'VolumeSSAResult' else [])
-        elif what in ('VolumeCellState', 'DelayVolumeCellState', 'LineageVolumeCellState'):
+            if what == 'DelaySSAResult':
+                a.append(drain_queue(r.py_get_delay_queue(), 3, len(TIMES)))
+                b.append(drain_queue(r2.py_get_delay_queue(), 3, len(TIMES)))
+        elif what in ('ArrayDelayQueue', 'ArrayDelayQueue-advanced'):
+            q = ArrayDelayQueue.setup_queue(3, 4, 0.5)
+            q.py_add_reaction(1.0, 0, 3.0); q.py_add_reaction(2.0, 1, 5.0); q.py_add_reaction(1.5, 2, 2.0)
+            if what.endswith('advanced'):
+                for _ in range(5):          # more advances than reactions and than slots: the ring has wrapped
+                    q.py_advance_time()
+                q.py_add_reaction(q.py_get_next_queue_time() + 1.0, 1, 4.0); q.py_add_reaction(q.py_get_next_queue_time(), 2, 1.0)
+            q2 = cp(q)
+            a, b = drain_queue(q, 3, 4), drain_queue(q2, 3, 4)
+        elif what in ('VolumeCellState', 'DelayVolumeCellState', 'LineageVolumeCellState', 'LineageVolumeCellState-time0'):
             if what == 'VolumeCellState':
                 o = VolumeCellState(time=1.5, state=np.array([1.0, 2.0, 3.0]), volume=2.5)
             elif what == 'DelayVolumeCellState':
                 q = ArrayDelayQueue.setup_queue(2, 3, 0.5)
                 q.py_add_reaction(1.0, 1, 1.0)
+                for _ in range(4):
+                    q.py_advance_time()
+                q.py_add_reaction(q.py_get_next_queue_time() + 0.5, 0, 2.0); q.py_add_reaction(q.py_get_next_queue_time(), 1, 1.0)
                 o = DelayVolumeCellState(time=1.5, state=np.array([1.0, 2.0, 3.0]), volume=2.5, queue=q)
+            elif what == 'LineageVolumeCellState-time0':
+                # current time exactly 0 with an earlier birth time (a burn-in that ends at t = 0)
+                o = LineageVolumeCellState(v0=1.2, t0=-2.0, state=np.array([0.0, 2.0, 3.0]), volume=2.5, time=0.0, divided=-1, dead=-1)
             else:
                 o = LineageVolumeCellState(v0=1.2, t0=0.5, state=np.array([1.0, 2.0, 3.0]), volume=2.5, time=1.5, divided=1, dead=-1)
             o2 = cp(o)
             a = [o.py_get_time(), o.py_get_volume(), arr(o.py_get_state())]
             b = [o2.py_get_time(), o2.py_get_volume(), arr(o2.py_get_state())]
-            if what == 'LineageVolumeCellState':
+            if what.startswith('LineageVolumeCellState'):
                 a += [o.py_get_initial_volume(), o.py_get_initial_time()]
                 b += [o2.py_get_initial_volume(), o2.py_get_initial_time()]
             if what == 'DelayVolumeCellState':
-                def qv(x):
-                    qq = x.py_get_delay_queue()
-                    if qq is None:
-                        return None
-                    out = []
-                    qq = qq.py_copy()
-                    for _ in range(3):
-                        z = np.zeros(2); qq.py_get_next_reactions(z); out.append(z.tolist()); qq.py_advance_time()
-                    return out
-                a.append(qv(o)); b.append(qv(o2))
+                a.append(drain_queue(o.py_get_delay_queue(), 2, 3)); b.append(drain_queue(o2.py_get_delay_queue(), 2, 3))
             # independence
             o2.py_get_state()[0] = 99.0
             if o.py_get_state()[0] == 99.0:
@@ -428,7 +452,7 @@ def run(ctx):
             items.append(('lineage', name, h))
     pmap(check_model, items, ctx, nshards=256)
     res = [(w, how) for w in ('SSAResult', 'VolumeSSAResult', 'DelaySSAResult', 'DeterministicResult', 'VolumeCellState', 'DelayVolumeCellState',
-                              'LineageVolumeCellState', 'Schnitz', 'Lineage', 'ExperimentalLineage', 'SimulatedLineage') for how in ('pickle', 'deepcopy')]
+                              'LineageVolumeCellState', 'LineageVolumeCellState-time0', 'ArrayDelayQueue', 'ArrayDelayQueue-advanced', 'Schnitz', 'Lineage', 'ExperimentalLineage', 'SimulatedLineage') for how in ('pickle', 'deepcopy')]
     pmap(check_results, res, ctx, nshards=len(res))
     ctx.bounds = dict(history_length=L, plain_models=len(plain), lineage_models=len(lin), histories=len(hists), cases=len(items), result_objects=len(res))
     ctx.rule = ('E2+E3: one plain model per member type (every propensity class, two general rates that together contain every Term node class, '
